@@ -5,8 +5,11 @@ use crate::desc::*;
 use mv_model::{eval, frame_value, ulp32, Frame, Locate, Phase};
 
 pub struct ModelTl {
-    pub desc: TlDesc,
-    pub frames: [Vec<Frame<Ez>>; NPROP],
+    pub timing: mv_model::Timing,
+    /// per property: the frame list (empty = not animated)
+    pub frames: Vec<Vec<Frame<Ez>>>,
+    pub is_int: Vec<bool>,
+    pub names: Vec<String>,
     pub uses_back: bool,
 }
 
@@ -39,8 +42,28 @@ fn ease(e: &Ez, x: f64) -> f64 {
 
 impl ModelTl {
     pub fn new(desc: &TlDesc) -> Self {
-        let frames = [desc.frames(0), desc.frames(1), desc.frames(2), desc.frames(3)];
-        ModelTl { uses_back: desc.uses_back(), desc: desc.clone(), frames }
+        let frames = vec![desc.frames(0), desc.frames(1), desc.frames(2), desc.frames(3)];
+        ModelTl {
+            uses_back: desc.uses_back(),
+            timing: desc.timing,
+            frames,
+            is_int: PROP_IS_INT.to_vec(),
+            names: PROP_NAMES.iter().map(|s| s.to_string()).collect(),
+        }
+    }
+
+    /// Model of a timeline over an arbitrary list of properties (used for generated struct shapes):
+    /// `kfs[k] = (position, per-property value or None, easing)`, in insertion order.
+    pub fn dynamic(timing: mv_model::Timing, default_ez: Ez, kfs: &[(f32, Vec<Option<f64>>, Option<Ez>)], is_int: Vec<bool>, names: Vec<String>) -> Self {
+        let n = is_int.len();
+        let frames = (0..n)
+            .map(|i| {
+                let ins: Vec<mv_model::KfIn<Ez>> = kfs.iter().map(|(p, v, e)| mv_model::KfIn { pos: *p as f64, value: v[i], easing: *e }).collect();
+                mv_model::frames(&ins, 0.0, default_ez)
+            })
+            .collect();
+        let uses_back = default_ez.is_back() || kfs.iter().any(|(_, _, e)| e.map(|e| e.is_back()).unwrap_or(false));
+        ModelTl { timing, frames, is_int, names, uses_back }
     }
 
     pub fn animates(&self, i: usize) -> bool {
@@ -49,7 +72,7 @@ impl ModelTl {
 
     /// Exact model value of property `i` at exact time `t` (f64), no tolerance; None = untouched.
     pub fn value_at(&self, i: usize, t: f64, start: Option<f64>) -> Option<(f64, Phase)> {
-        let ph = self.desc.timing.phase(t);
+        let ph = self.timing.phase(t);
         eval(&self.frames[i], ph.pos(), start, ph.first_forward_pass(), &ease).map(|e| (e.value, ph))
     }
 
@@ -60,7 +83,7 @@ impl ModelTl {
         if fr.is_empty() {
             return None;
         }
-        Some(if self.desc.timing.reverse { fr[0].value } else { fr[fr.len() - 1].value })
+        Some(if self.timing.reverse { fr[0].value } else { fr[fr.len() - 1].value })
     }
 
     /// Judges property `i` of the implementation's output `got` at time `t`.
@@ -73,12 +96,12 @@ impl ModelTl {
     /// `t - delay`, which is always added).
     pub fn judge_window(&self, i: usize, t: f64, extra: f64, start: Option<f64>, got: f64) -> Result<Judged, String> {
         let fr = &self.frames[i];
-        let tm = &self.desc.timing;
+        let tm = &self.timing;
         let mut j = Judged::default();
         if fr.is_empty() {
             return Ok(j);
         }
-        let is_int = PROP_IS_INT[i];
+        let is_int = self.is_int[i];
         let s = t - tm.delay as f64;
         let ds = ulp32(s as f32) as f64 + extra;
         let pts = [s - ds, s, s + ds];
@@ -146,7 +169,7 @@ impl ModelTl {
             let (lo, hi) = all_vals();
             let tol = 8.0 * ulp32(lo.abs().max(hi.abs()) as f32) as f64 + int_slack + (hi - lo) * 1e-6;
             if got < lo - tol || got > hi + tol {
-                return Err(format!("prop {} t={t:?}: got {got} outside the value range [{lo},{hi}] (near a phase boundary)", PROP_NAMES[i]));
+                return Err(format!("prop {} t={t:?}: got {got} outside the value range [{lo},{hi}] (near a phase boundary)", self.names[i]));
             }
             return Ok(j);
         }
@@ -198,7 +221,7 @@ impl ModelTl {
                 if (got - v).abs() > tol {
                     return Err(format!(
                         "prop {} t={t:?}: got {got}, model {v} (segment {seg}: {a} -> {b}, x={x:.7}, easing {:?}, y={y:.7}, tol {tol:.3e}, phase {:?}, first_pass {first_pass})",
-                        PROP_NAMES[i], e, ph[1]
+                        self.names[i], e, ph[1]
                     ));
                 }
                 Ok(j)
@@ -250,7 +273,7 @@ impl ModelTl {
                 if got < lo - tol || got > hi + tol {
                     return Err(format!(
                         "prop {} t={t:?}: got {got} outside [{lo},{hi}] (+-{tol:.3e}) around frame position(s) in window [{pl},{phh}], phase {:?}",
-                        PROP_NAMES[i], ph[1]
+                        self.names[i], ph[1]
                     ));
                 }
                 Ok(j)
